@@ -189,10 +189,13 @@ def do_run(ids, tier, all_checks, props_extra):
                     os.path.join(d, "patch.diff")],
                    cwd=tmp)
       if rc:
-        rows.append((sid, meta["property"], "PATCH-FAILS", out[-200:]))
-        print("%-8s %-4s %-7s %s" % (sid, meta["property"], "PATCH-NO-LONGER-APPLIES",
-                                     "(the tree changed under it: a later fix: commit)"),
-              flush=True)
+        # a later fix: commit rewrote the lines: run it differentially on the
+        # newest commit it applies to (caught = it adds a key to what that
+        # older tree reports by itself)
+        res = rerun_on_older_base(os.path.join(d), meta["property"], tier,
+                                  seeded=True)
+        rows.append((sid, meta["property"], res.split()[0], res))
+        print("%-8s %-4s %s" % (sid, meta["property"], res), flush=True)
         continue
       props = [meta["property"]] + list(props_extra)
       if all_checks:
@@ -232,7 +235,7 @@ def key_names(keys):
   return sorted(set(k.split()[0] for k in keys))
 
 
-def rerun_on_older_base(d, prop, tier):
+def rerun_on_older_base(d, prop, tier, seeded=False):
   commits = subprocess.run(["git", "-C", "/repo", "log", "--format=%h",
                             "HEAD"], capture_output=True,
                            text=True).stdout.split()
@@ -256,6 +259,14 @@ def rerun_on_older_base(d, prop, tier):
       mech = set(k.split("/", 1)[-1] for k in key_names(bkeys))
       extra = [k for k in key_names(keys) if k not in key_names(bkeys) and
                k.split("/", 1)[-1] not in mech]
+      if seeded:
+        new = [k for k in key_names(keys) if k not in key_names(bkeys) and
+               k.split("/", 1)[-1] not in mech]
+        if rc == 1 and new:
+          return "caught  on-base=%s new keys: %s" % (commit,
+                                                      "; ".join(new)[:200])
+        return "silent-on-base=%s rc=%d (base alone: %s)" % (
+          commit, rc, ", ".join(key_names(bkeys))[:150] or "nothing")
       if rc in (0, 1) and brc in (0, 1) and not extra:
         return "silent  on-base=%s (that tree alone reports: %s)" % (
           commit, ", ".join(key_names(bkeys)) or "nothing")
